@@ -62,6 +62,13 @@ def cases(tier, seed):
     out.append({"fam": "po2", "cls": "quantized_po2", "kw": {"bits": bits, "max_value": mv, "log2_rounding": "floor"}, "inference_only": True})
     out.append({"fam": "po2", "cls": "quantized_relu_po2", "kw": {"bits": bits, "max_value": mv, "log2_rounding": "floor"},
                 "inference_only": True})
+  # data-dependent scales with the stochastic flag: inference must equal the flag-less configuration, also at ties
+  for bits, alpha in P([3, 4], ["auto_po2", "auto"]):
+    out.append({"fam": "dyadic", "cls": "quantized_bits", "kw": {"bits": bits, "integer": 0, "alpha": alpha}, "inference_only": True})
+  # quadratic approximation: the codes are 4^k; in training the draw picks between two of *those*
+  for bits in (4, 5):
+    out.append({"fam": "po2", "cls": "quantized_po2", "kw": {"bits": bits, "quadratic_approximation": True}, "quadratic": True})
+    out.append({"fam": "po2", "cls": "quantized_relu_po2", "kw": {"bits": bits, "quadratic_approximation": True}, "quadratic": True})
   for alpha in (None, 1.0, 2.0, "auto", "auto_po2"):
     for use_01 in (False, True):
       out.append({"fam": "bt", "cls": "binary", "kw": {"alpha": alpha, "use_01": use_01}})
@@ -139,6 +146,8 @@ def run_case(case, ctx):
         xt_ = fixed.surrogate_inverse(fmt, fmt.offset + fmt.step * ties)
         x[-24:-12] = np.where(np.isfinite(xt_), xt_, 0.0)
         x = x.astype(np.float32)
+      elif fam == "dyadic":
+        x = (rng.integers(-48, 49, size=n) / 32.0).astype(np.float32)      # many exact half-way points of a po2 scale
       elif fam == "po2":
         mn, mx = po2.exponent_interval(cls, kw["bits"], kw.get("max_value"))
         top = min(mx, 12) + 2
@@ -291,6 +300,15 @@ def train_oracle(ctx, case, base, x, outs, real, Kg):
       ctx.violation(dict(base, kind="not_power_of_two_in_training"), "x=%r -> %r" % (float(x.flat[i]), ys[j].flat[i]), {"kw": kw})
       return
     ex = ex - 1
+    if case.get("quadratic"):
+      # only membership is claimed here: every emitted exponent is even (a code of the quadratic format)
+      ctx.count("quadratic_training_membership_checked")
+      odd = (ex % 2 != 0)
+      if odd.any():
+        j, i = np.argwhere(odd.reshape(len(allouts), -1))[0]
+        ctx.violation(dict(base, kind="odd_exponent_from_quadratic_format_in_training"),
+                      "x=%r -> 2^%d (the quadratic format only holds even exponents)" % (float(x.flat[i]), ex[j].flat[i]), {"kw": kw})
+      return
     far = (ex < lo_e[None, ...]) | (ex > hi_e[None, ...])
     if far.any():
       j, i = np.argwhere(far.reshape(len(allouts), -1))[0]
